@@ -272,7 +272,33 @@ def chk_corpus(case, note):
     return None
 
 
+def enum_threads(ctx):
+    for k in range(4 if ctx.tier == "quick" else 32):
+        if ctx.mine(k):
+            yield {"ctx_seed": ctx.rng("thr", k).getrandbits(32)}
+
+
+def chk_threads(case, note):
+    """four threads inside crc() at once on different frames (switch interval 1 us): every call still returns its own remainder"""
+    import random
+    from vlib import variants
+    rng = random.Random(case["ctx_seed"])
+    jobs = []
+    for _ in range(16):
+        n = rng.choice([56, 112])
+        v = rng.getrandbits(n)
+        m = tohex(v, n, rng.choice("UL"))
+        jobs.append(("crc", pms.crc, (m,), ("ok", crc24.remainder(v, n))))
+        jobs.append(("crc", pms.crc, (m, True), ("ok", crc24.parity(v >> 24, n - 24))))
+    p = variants.hammer(jobs, nthreads=4, rounds=60)
+    note.evals = len(jobs) * 4 * 60
+    note.cls("concurrent-callers")
+    note.nt(True)
+    return p
+
+
 LEGS = [
+    Leg("threads", chk_threads, enum=enum_threads, shards_quick=4, shards_thorough=8, doc="concurrent callers of crc() with a 1 us switch interval"),
     Leg("corpus", chk_corpus, enum=enum_corpus, exhaustive=True, doc="2000 real DF17 frames from the repository's sample data: remainder 0 under the reference and both implementations"),
     Leg("three_way", chk_three_way, strategy=s_frame, quick=24000, thorough=800000,
         doc="crc == bit-serial reference == crc_legacy, both modes, both lengths, three letter cases"),
